@@ -125,6 +125,12 @@ func (g *gen) intExpr(d int) string {
 		return "int(s0[ix(" + g.intExpr(d-1) + ", len(s0))])"
 	case 11:
 		if g.f.Hostile {
+			switch g.ir(0, 2, "adjminus") {
+			case 0:
+				return "lim(" + g.intExpr(d-1) + " - -3)"
+			case 1:
+				return "lim(" + g.intExpr(d-1) + " - -i3)"
+			}
 			return "lim(" + g.intExpr(d-1) + " - -(" + g.intExpr(0) + "))"
 		}
 		return "lim(-" + g.intExpr(d-1) + ")"
@@ -303,6 +309,9 @@ func (g *gen) stmt() {
 		g.trace(fmt.Sprintf("t%d", g.budget))
 	case 9:
 		g.kind("float")
+		if g.f.Hostile && g.ir(0, 1, "floatminus") == 0 {
+			g.w("f0 = fclamp(f0 - -f0/4 - -1.5)")
+		}
 		g.w("f0 = fclamp(f0*%s + float64(%s)/%d.0)", g.pick("fm", "0.5", "1.25", "-0.75", "3"), g.intExpr(2), g.ir(1, 7, "fd"))
 	case 10, 11:
 		g.kind("if")
@@ -389,6 +398,13 @@ func (g *gen) stmt() {
 				tail = "i2 = lim(i2 + *pc*5 + c)"
 			}
 		}
+		if g.ir(0, 2, "bodycapture") == 0 && g.inClosure == 0 {
+			// a variable of the loop body captured by a closure: one variable per iteration
+			g.kind("loopbody-capture")
+			g.w("bv := lim(i3 + 1)")
+			g.w("fn = func(d int) int { bv++; return lim(bv + d) }")
+			g.w("i3 = lim(i3 + fn(2) + bv)")
+		}
 		g.block(g.ir(1, 3, "forb"))
 		if tail != "" {
 			g.w("%s", tail)
@@ -451,6 +467,13 @@ func (g *gen) stmt() {
 					g.kind("fallthrough")
 					g.w("fallthrough")
 					needDefault = true
+				} else if g.inLoop > 0 && g.ir(0, 2, "swcont") == 0 {
+					// an unlabelled continue inside a switch continues the loop around the switch
+					g.kind("switch-continue")
+					g.w("if %s {", g.boolExpr(1))
+					g.w("\ti2 = lim(i2 + 1)")
+					g.w("\tcontinue")
+					g.w("}")
 				} else if g.ir(0, 4, "swbrk") == 0 {
 					g.kind("switch-break")
 					g.w("if %s {", g.boolExpr(1))
@@ -684,8 +707,18 @@ func (g *gen) stmt() {
 		g.w("func() {")
 		g.indent++
 		g.w("defer func() {")
+		// suspension sites inside the deferred function: before recover, and after a recovered panic
+		if g.f.Yield && g.noYield == 0 {
+			g.w("\tyield(%d)", g.nsite)
+			g.nsite++
+			g.kind("yield-in-defer")
+		}
 		g.w("\ti1 = lim(i1 + 3)")
 		g.w("\tif r := recover(); r != nil {")
+		if g.f.Yield && g.noYield == 0 {
+			g.w("\t\tyield(%d)", g.nsite)
+			g.nsite++
+		}
 		g.w("\t\ts1 = cut(s1 + \"R\")")
 		g.w("\t}")
 		g.w("}()")
